@@ -488,6 +488,7 @@ def readme_claims(path):
 
 # ------------------------------------------------------------------ the check
 def run(ctx):
+    C.config_matrix(ctx["report"], ctx["rundir"], "C13", ["1 eur to usd", "1 gbp to eur", "1 keur to eur", "1 meur to eur", "1 kiloeuro to euros", "1 € to eur", "1 km to m", "1 KiB to B", "1 km | m", "1 mg | kg", "1 km m to m^2", "(1 m^2) to km m", "ms = 3; 5 ms to s", "kg = 70; 2 kg to g", "{1 km to m : km in {7, 8}}", "1 kdegC", "1 usd to usd", "100 jpy to usd"])
     C.seam_check(ctx["report"], ctx["rundir"], "C13",
                  texts=["1 kB to b", "1 MB to kB", "180 deg to rad", "3 dozen to dozen", "1 km to m", "1 fm to m", "1 kdegC", "1 Kin to inch", "1 dau to astronomicalunit",
                         "1 eV to J", "1 Da to kg", "1 μm to m", "1 KiB to B"],
